@@ -155,6 +155,7 @@ MUTANTS = [
     ("c07-dotted-registered-name-reverted", "C07", K, "    if classes and json_module_clean in classes:\n        # Name of a local class (which can look like a module path)\n        json_class = classes[json_module_clean]\n    elif classes and len(json_module_parts) == 1:", "    if classes and len(json_module_parts) == 1:", "dotted registered names are imported as module paths again"),
     ("c07-enum-value-raw-reverted", "C07", K, "            [dump(obj.value, serialize_method, ignore_attribute, ignore, config)]", "            [obj.value]", "enum values are emitted raw again"),
     ("c20-empty-handler-table-detached-reverted", "C20", C, "        if serialize_handlers is None:\n            serialize_handlers = {}\n        self.serialize_handlers = serialize_handlers", "        self.serialize_handlers = serialize_handlers or {}", "an empty handler table given by the caller is replaced again"),
+    ("c06-multicall-slice-reverted", "C06", J, "        if isinstance(i, slice):\n            return [self.__get_result(item) for item in self.results[i]]\n\n", "", "a slice of MultiCall results raises TypeError again"),
     ("c17-cgi-byte-read-reverted", "C17", S, "            request_text = utils.from_bytes(reader.read(length))", "            request_text = sys.stdin.read(length)", "the CGI handler reads characters again"),
     ("c19-2xx-accepted", "C19", J, "            if response.status == 200:", "            if response.status < 300:", "201/202 replies parsed as results"),
     ("c20-ignore-not-propagated", "C20", K, "                attrs[attr_name] = dump(\n                    attr_value,\n                    serialize_method,\n                    ignore_attribute,\n                    ignore,\n                    config,\n                )",
